@@ -2,9 +2,12 @@ package main
 
 import (
 	"bufio"
+	"encoding/hex"
 	"fmt"
 	"os"
+	"path/filepath"
 	"sort"
+	"strconv"
 	"strings"
 
 	li "github.com/corazawaf/libinjection-go"
@@ -452,11 +455,68 @@ func verdictStream(c *corpus, r *rng, tier string) *inputSet {
 var breakouts = []string{"", "x>", "x'>", "x\">", "x`>"}
 var attrBreakouts = []string{"<a ", "x ", "x' ", "x\" ", "x` "}
 
+// the lists the vector grammar is built from: the lists of the running package and, when
+// the translator's dump of the source literals is available (build/tables.txt), those as
+// well, so that an entry lost between the source and the running table is still replayed
+type nameType struct {
+	Name string
+	Type int
+}
+
+var srcTags []string
+var srcBlacks, srcEvents []nameType
+
+func loadSourceLists(verif string) {
+	data, err := os.ReadFile(filepath.Join(verif, "build", "tables.txt"))
+	if err != nil {
+		return
+	}
+	for _, ln := range strings.Split(string(data), "\n") {
+		f := strings.Fields(ln)
+		if len(f) < 2 {
+			continue
+		}
+		b, err := hex.DecodeString(f[1])
+		if err != nil {
+			continue
+		}
+		switch f[0] {
+		case "T":
+			srcTags = append(srcTags, string(b))
+		case "A", "E":
+			if len(f) < 3 {
+				continue
+			}
+			t, _ := strconv.Atoi(f[2])
+			if f[0] == "A" {
+				srcBlacks = append(srcBlacks, nameType{string(b), t})
+			} else {
+				srcEvents = append(srcEvents, nameType{string(b), t})
+			}
+		}
+	}
+}
+
+func grammarLists() (tags []string, blacks, events []nameType) {
+	tags = append(tags, li.VerifBlackTags()...)
+	tags = append(tags, srcTags...)
+	for _, a := range li.VerifBlacks() {
+		blacks = append(blacks, nameType{a.Name, int(a.Type)})
+	}
+	blacks = append(blacks, srcBlacks...)
+	for _, e := range li.VerifBlackEvents() {
+		events = append(events, nameType{e.Name, int(e.Type)})
+	}
+	events = append(events, srcEvents...)
+	return
+}
+
 func xssCore(emit func(stream, v string)) {
+	gTags, gBlacks, gEvents := grammarLists()
 	for ci := range breakouts {
 		pre := breakouts[ci]
 		apre := attrBreakouts[ci]
-		for _, tag := range li.VerifBlackTags() {
+		for _, tag := range gTags {
 			for _, term := range []string{">", " ", "/", ""} {
 				emit("black-tag", pre+"<"+tag+term)
 			}
@@ -464,7 +524,7 @@ func xssCore(emit func(stream, v string)) {
 		for _, tag := range []string{"SVT", "XSL"} {
 			emit("black-tag", pre+"<"+tag+">")
 		}
-		for _, e := range li.VerifBlackEvents() {
+		for _, e := range gEvents {
 			if e.Type != 1 {
 				continue
 			}
@@ -475,7 +535,7 @@ func xssCore(emit func(stream, v string)) {
 		for _, sp := range []string{" ", "\t", "\n", "\v", "\f", "\r", "/"} {
 			emit("event-separator", pre+"<a"+sp+"ONCLICK=x")
 		}
-		for _, a := range li.VerifBlacks() {
+		for _, a := range gBlacks {
 			switch a.Type {
 			case 2: // URL attribute
 				for _, sch := range []string{"JAVASCRIPT:", "VBSCRIPT:", "DATA:", "VIEW-SOURCE:"} {
